@@ -383,6 +383,14 @@ func runC08(r *core.Run) {
 		s.AfterOp = func(op string, wn *wworld.WalletNode, err error) { inspect() }
 		for i := 0; i < nops && r.Violations() < 10; i++ {
 			s.RandomOp(cfg)
+			if noDLEQ && i == nops/3 {
+				// the mint starts to implement NUT-12: from here on its answers carry DLEQ proofs, and the
+				// wallets hold proofs of the same keysets with and without them
+				for _, m := range w.Mints {
+					w.T.StripDLEQ.Delete(m.Host)
+				}
+				s.Log = append(s.Log, "(the mints' answers carry DLEQ proofs from here on)")
+			}
 			if i == nops/2 {
 				// restore one wallet from its mnemonic into an empty directory (its requests are inspected too)
 				wn := w.Wallets[0]
